@@ -26,7 +26,7 @@ func init() {
 
 var profC04 = Profile{
 	MaxBars: 7, MinBars: 1, MaxSteps: 40, Refresh: []string{"manual", "manual", "manual", "manual", "manual", "none"}, QLens: []int{-1},
-	Pop: 35, Queue: 15, Prio: true, Ext: 30, Text: 3, Rm: 30, NoPop: 20, AbortW: 2, TicksW: 10,
+	Pop: 35, Queue: 15, Prio: true, PrioOnFinished: true, Ext: 30, Text: 3, Rm: 30, NoPop: 20, AbortW: 2, TicksW: 10,
 	Pty: 55, PtyRowsMax: 8, Delay: 15, Fillers: []string{"tag", "bar", "spinner"}, LateAdd: true, Cancel: 5,
 }
 
